@@ -96,6 +96,29 @@ function nearMissProject(rng) {
   return { files, label: "near-miss" };
 }
 
+// names that reach the entry through two or three `export *` hops (also with a named re-export in
+// between), to be built with every PARTIAL pre-registration of the files: what is registered before
+// the build, and in which order, must not decide what the lookups find
+function starChainProject(rng) {
+  const hops = 2 + rng.below(2);
+  const files = {};
+  const names = ["a", "b", "c", "d"].slice(0, hops + 1);
+  for (let i = 0; i < hops; i++) {
+    const next = names[i + 1];
+    const own = rng.chance(0.5) ? `export type Own${i} = { at: ${i} };\n` : "";
+    const link = rng.wpick([[5, `export * from "./${next}";\n`], [1, `export * from "./${next}";\nexport * from "./${next}";\n`], [1, `export { X, Y } from "./${next}";\n`]]);
+    files[`${names[i]}.ts`] = rng.chance(0.5) ? own + link : link + own;
+  }
+  files[`${names[hops]}.ts`] = `export type X = { x: ${rng.pick(["string", "number", '"lit"'])} };\nexport interface Y { y: X[] }\nexport const v = { k: 1 } as const;\n`;
+  files["entry.ts"] = rng.pick([
+    `import { X, Y } from "./a";\nexport const P = parse.buildParsers<{ X: X; Y: Y }>();\n`,
+    `import * as ns from "./a";\nexport const P = parse.buildParsers<{ X: ns.X; V: typeof ns.v }>();\n`,
+    `import type { Y } from "./a";\nimport { Own0 } from "./a";\nexport const P = parse.buildParsers<{ Y: Y; O: Own0 }>();\n`,
+    `export const P = parse.buildParsers<{ X: import("./a").X; M: import("./a").Missing }>();\n`,
+  ]);
+  return { files, label: "star-chain" };
+}
+
 function manyDeclsProgram(rng) {
   // many same-shaped declarations (hoist numbering, named-ref substitution) and two-key discriminated unions
   const g = new TypeGen(rng.fork("t"), { maxDepth: 3 });
@@ -116,14 +139,22 @@ export async function run(ctx) {
       [2, "wild"],
       [2, "corpus"],
       [2, "near-miss"],
+      [2, "star-chain"],
     ]);
-    const p = kind === "supported" ? manyDeclsProgram(rng) : kind === "typeof-namespace" ? typeofNamespaceProject(rng) : kind === "multifile" ? multiFileProject(rng) : kind === "wild" ? wildProgram(rng) : kind === "near-miss" ? nearMissProject(rng) : mutateCorpus(rng);
+    const p = kind === "supported" ? manyDeclsProgram(rng) : kind === "typeof-namespace" ? typeofNamespaceProject(rng) : kind === "multifile" ? multiFileProject(rng) : kind === "wild" ? wildProgram(rng) : kind === "near-miss" ? nearMissProject(rng) : kind === "star-chain" ? starChainProject(rng) : mutateCorpus(rng);
     const base = { files: p.files, settings: p.settings ?? randomSettings(rng) };
     const names = Object.keys(p.files);
+    // registration orders: lazy only, everything in three orders, and PARTIAL sets (one file, a random
+    // subset) registered before the build while the rest is fetched lazily
     const orders = [null, names.slice().sort(), names.slice().sort().reverse(), rng.shuffle(names)];
+    if (names.length > 1) {
+      orders.push([rng.pick(names.filter((n) => n !== "entry.ts"))]);
+      orders.push(rng.shuffle(names).slice(0, 1 + rng.below(names.length - 1)));
+      if (kind === "star-chain") for (const n of names) if (n !== "entry.ts") orders.push([n]);
+    }
     const runs = [];
     // (1) fresh OS processes (fresh std RandomState), different registration orders
-    for (let k = 0; k < procs; k++) {
+    for (let k = 0; k < Math.max(procs, orders.length); k++) {
       const order = orders[k % orders.length];
       const res = compileOnce({ ...base, order: order ?? undefined, cpu_budget_ms: 10000 }, { timeoutMs: 60000 });
       runs.push({ how: `process#${k}`, order, fp: fingerprint(res), outcome: res.outcome });
